@@ -46,3 +46,80 @@ PROPS["C20"] = dict(
     assumptions=["comparator is a strict weak order (hypothesis StrictWeak of the heap theorems)",
                  "Go map semantics (unique keys, arbitrary iteration order) as modelled by Enum"],
 )
+
+V2FILES = ["overlay/v2/common_test.go", "overlay/v2/tok_test.go", "overlay/v2/match_test.go", "overlay/v2/props_test.go"]
+
+
+def v2run(test, **kw):
+    d = dict(mod="v2", pkg=".", pkgname="classifier", files=V2FILES, run=f"^{test}$", timeout=900, timeout_thorough=7000)
+    d.update(kw)
+    return d
+
+
+TOK = v2run("TestVerifTok")
+MATCH = v2run("TestVerifMatch")
+V2_TB = ["hand-written Lean model of the v2 pipeline (LC/Model/V2Tok, V2Env, V2Match, Score, Utf8, HtmlUnescape) tied to "
+         "the Go code by differential correspondence on every run: stage `tok` (bytes -> tokens/lines/copyright lines, "
+         "incl. the 1024-byte read loop) and stage `match` (tokens -> Results, bit-identical confidences)",
+         "regenerated tables LC/Gen (Unicode classes and ToLower of the Go toolchain in use, punctuationMappings, "
+         "interchangeableWords, listMarker, ignorableTexts sources, inducedPhrases, buffer constants, HTML entities)",
+         "go-diff DiffMainRunes is an oracle parameter (its observed script is recorded and fed to the model); "
+         "regexp is replaced by hand-written matchers for the three ignorableTexts expressions (validated differentially)"]
+
+PROPS["C02"] = dict(
+    lean_modules=["LC.Props.C02"],
+    regen=["unicode", "v2tables", "html"],
+    theorems=["LC.Score.lev_le_levWord", "LC.Score.score_bound", "LC.Score.lev_eq_zero_iff",
+              "LC.Score.conf_one_only_if_identical"],
+    runs=[MATCH],
+    rule="real Match on exact / edited (word deletions, substitutions, insertions at 2-30%) / truncated / multi-license "
+         "inputs, scenario files and malformed text over the full embedded corpus; oracle: independent two-row DP "
+         "Levenshtein over the white-box token ids, Confidence <= 1 - L/|K|, lines = lines of first/last word. "
+         "distinct = distinct input bytes; non-trivial = at least one match reported",
+    trusted_base=V2_TB,
+    assumptions=["DiffSpec.valid: the script returned by go-diff reproduces both texts with non-empty segments "
+                 "(hypothesis `Valid` of score_bound; every recorded script is replayed through the model, so an invalid "
+                 "one shows as a correspondence mismatch)",
+                 "float64: 1 - d/k is antitone in d (confidence is computed from the integer distance by one IEEE expression)",
+                 "dictionary size < 0xD800 (token ids are cast to runes inside go-diff)"],
+    level_text="lev_le_levWord / score_bound prove, for EVERY valid edit script, that the distance the code uses for the "
+               "confidence is an upper bound of the true word-level Levenshtein distance between the reported span and the "
+               "known text; the code's computation of that distance, of the span offsets and of the confidence is tied to "
+               "the model by the `match` correspondence (bit-identical Results) on every run.",
+)
+
+PROPS["C03"] = dict(
+    lean_modules=["LC.Props.C03Lines"],
+    regen=["unicode", "v2tables", "html"],
+    theorems=["LC.V2Tok.token_lines_bounded", "LC.V2Tok.copyright_lines_bounded", "LC.V2Tok.token_lines_monotone",
+              "LC.V2Tok.totalInputLines_le"],
+    runs=[TOK, MATCH],
+    rule="tokenizer: corpus documents, scenario files, malformed stream (invalid UTF-8, entity soup, hyphen/newline "
+         "storms), buffer-alignment stream; Match: as C02. Oracle: every inequality of the property evaluated on the "
+         "real result. distinct = distinct input; non-trivial = more than 3 tokens / at least one match",
+    trusted_base=V2_TB,
+    assumptions=["thresholds in (0,1]; corpus keys without path separator"],
+    level_text="The line clause is proved for every rune sequence and every environment (token_lines_bounded, "
+               "copyright_lines_bounded, token_lines_monotone, totalInputLines_le); well-formedness of the assembled "
+               "matches rests on the `match` correspondence plus direct evaluation of the property's inequalities.",
+)
+
+PROPS["C08"] = dict(
+    lean_modules=["LC.Props.C08"],
+    regen=["unicode", "v2tables", "html"],
+    theorems=["LC.V2Tok.decodeRune_width", "LC.V2Tok.decodeRune_local", "LC.V2Tok.feed_eq_decodeAll",
+              "LC.V2Tok.feed_pad", "LC.V2Tok.stableTail_of_ascii_end", "LC.V2Tok.feedR_spec"],
+    runs=[TOK, v2run("TestVerifC08")],
+    rule="MatchFrom through readers that fragment (1 byte, mixed sizes, data delivered with EOF) vs Match on the bytes; "
+         "leading-space pads that move multi-byte characters across the 1024-byte buffer boundaries (thorough: every pad "
+         "0..2056); readers failing with three different errors (incl. io.ErrUnexpectedEOF) at sampled/every offset. "
+         "distinct = distinct (input, fragmentation|pad|fault offset); non-trivial = the unpadded input has matches",
+    trusted_base=V2_TB + ["io.ReadFull contract (fills the buffer or reports why not) — the model's reader delivers the "
+                          "bytes and then its terminal error"],
+    assumptions=["StableTail: the input does not END inside a multi-byte UTF-8 sequence (then the Go decoder can see "
+                 "stale buffer bytes beyond the end of input; see DESIGN §6 C08)"],
+    level_text="feed_eq_decodeAll proves, for inputs of every length, that the buffered read loop (as modelled with its "
+               "exact constants, carry-over and stale bytes) hands the scanner the same runes as decoding the whole input; "
+               "feed_pad is the pad clause; feedR_spec the fault clause. The loop model is tied to Go by the `tok` "
+               "correspondence incl. an alignment stream around bytes 1016-1028 and 2040-2052.",
+)
